@@ -8,11 +8,10 @@
    comments are kept and are invisible when they are ignored; after the last item the reader reports
    the end of the input.  Any number of lines, no bound. *)
 From Coq Require Import List Bool Arith Ascii String NArith Lia.
-From FV Require Import SplitLine Text Reader ReaderLaws ReaderJoin ReaderItem ReaderJoinQ SemiLaws.
+From FV Require Import SplitLine Text Reader ReaderLaws ReaderJoin ReaderItem ReaderJoinQ ReaderJoinG SemiLaws.
 Import ListNotations.
 Close Scope string_scope.
 
-Notation bang := ("!"%char) (only parsing).
 
 (* what may stand between the first and the last line of a continued statement: a middle piece
    b&p& , a comment line (any indentation), an empty line *)
@@ -41,6 +40,8 @@ Inductive lay :=
 | LContQ (line : text) (lab : option N) (nm : option text) (p1 : text) (q1 : option ascii)
          (ms : list (text * text * option ascii)) (bn pn : text)   (* ... in any character context *)
 | LContC (line : text) (lab : option N) (nm : option text) (p1 : text) (es : list celem) (bn pn : text)
+| LContG (line : text) (lab : option N) (nm : option text) (tl1 p1 b21 : text) (q1 : option ascii) (oc1 : option text)
+         (es : list gelem) (bn pn tln : text) (ocn : option text)   (* ... every line may carry a trailing comment *)
 | LSemi (line : text) (lab : option N) (nm : option text) (p1 : text) (rest : list text)
         (os : list (text * option N * option text))
 | LCom (b c : text)
@@ -57,6 +58,7 @@ Definition phys (l : lay) : list text :=
   | LCont line _ _ _ ms bn pn => line :: mids ms ++ [last_line bn pn]
   | LContQ line _ _ _ _ ms bn pn => line :: mids3 ms ++ [last_line bn pn]
   | LContC line _ _ _ es bn pn => line :: map phys_e es ++ [last_line bn pn]
+  | LContG line _ _ _ _ _ _ _ es bn _ tln _ => line :: map phys_g es ++ [bn ++ amp :: tln]
   | LSemi line _ _ _ _ _ => [line]
   | LCom b c => [b ++ bang :: c]
   | LBlank => [[]]
@@ -93,6 +95,13 @@ Definition good (l : lay) : Prop :=
       stripped (last_line bn pn) /\
       strip (p1 ++ etext es ++ pn) <> [] /\
       mem_char ";"%char (strip (p1 ++ etext es ++ pn)) = false
+  | LContG line lab nm tl1 p1 b21 q1 oc1 es bn pn tln ocn =>
+      stripped line /\ line <> [] /\ starts_with ["#"%char] (lstrip line) = false /\
+      (exists l1, extract_label line = (lab, l1) /\ extract_construct_name l1 = (nm, tl1)) /\
+      amp_free p1 /\ blanks b21 /\ hicr tl1 None (p1 ++ amp :: b21) q1 oc1 /\ chain_g q1 es bn pn tln ocn /\
+      blanks bn /\ amp_free pn /\ pn <> [] /\ negb (is_blank pn) = true /\ stripped (bn ++ amp :: tln) /\
+      strip (p1 ++ gtext es ++ pn) <> [] /\
+      mem_char ";"%char (strip (p1 ++ gtext es ++ pn)) = false
   | LSemi line lab nm p1 rest os =>
       let body := join_semi (p1 :: rest) in
       stripped line /\ line <> [] /\ starts_with ["#"%char] (lstrip line) = false /\
@@ -122,6 +131,9 @@ Definition rawp (l : lay) (lc : nat) : ritem * list ritem :=
       (RLine (strip (p1 ++ texts3 ms ++ pn)) lab nm (S lc) (S (S lc) + List.length ms), [])
   | LContC _ lab nm p1 es _ pn =>
       (RLine (strip (p1 ++ etext es ++ pn)) lab nm (S lc) (S (S lc) + List.length es), ecoms es (S (S lc)))
+  | LContG _ lab nm _ p1 _ _ oc1 es _ pn _ ocn =>
+      (RLine (strip (p1 ++ gtext es ++ pn)) lab nm (S lc) (S (S lc) + List.length es),
+       cmtl oc1 (S lc) ++ gcoms es (S (S lc)) ++ cmtl ocn (S (S lc) + List.length es))
   | LSemi _ lab nm p1 rest _ => (RLine (join_semi (p1 :: rest)) lab nm (S lc) (S lc), [])
   | LCom _ c => (RComment (bang :: c) (S lc) (S lc) false, [])
   | LBlank => (RComment [] (S lc) (S lc) false, [])
@@ -183,6 +195,9 @@ Proof.
   rewrite (find_char_app_not bang p (bang :: c) Q1), find_char_head. cbn [option_map]. rewrite Nat.add_0_r.
   rewrite firstn_app_exact, skipn_app_exact. rewrite Q2, Q3. cbn [negb andb]. rewrite NB. reflexivity.
 Qed.
+
+Lemma hicr_trailing p c : plain p -> is_blank p = false -> hicr (p ++ bang :: c) None p None (Some (bang :: c)).
+Proof. intros P NB n. apply hic_trailing; assumption. Qed.
 
 Lemma gsi_onec line lab nm p c l1 src lc :
   stripped line -> line <> [] -> starts_with ["#"%char] (lstrip line) = false ->
@@ -356,7 +371,7 @@ Lemma gsi_lay l rest lc : good l ->
   get_source_item (stt (phys l ++ rest) lc [])
   = (Some (fst (rawp l lc)), stt rest (lc + List.length (phys l)) (snd (rawp l lc))).
 Proof.
-  destruct l as [line lab nm p|line lab nm p cm|line lab nm p1 ms bn pn|line lab nm p1 q1 ms bn pn|line lab nm p1 es bn pn|line lab nm p1 rs os|b c|];
+  destruct l as [line lab nm p|line lab nm p cm|line lab nm p1 ms bn pn|line lab nm p1 q1 ms bn pn|line lab nm p1 es bn pn|line lab nm tl1 p1 b21 q1 oc1 es bn pn tln ocn|line lab nm p1 rs os|b c|];
     cbn [good phys rawp fst snd].
   - intros [SL [NE [NH [[l1 [EL EN]] [P [NS SEMI]]]]]]. cbn [app List.length]. rewrite Nat.add_1_r.
     apply (gsi_one line lab nm p l1 rest lc SL NE NH EL EN P NS).
@@ -373,6 +388,11 @@ Proof.
   - intros [SL [NE [NH [[l1 [EL EN]] [P1 [G [Bn [Pn [PNE [NB [SLL [NS SEMI]]]]]]]]]]]].
     cbn [app List.length]. rewrite <- app_assoc. cbn [app].
     rewrite (gsi_contc line lab l1 nm p1 es bn pn rest lc SL NE NH EL EN P1 G Bn Pn PNE NB SLL NS).
+    f_equal. f_equal. rewrite app_length, map_length. cbn [List.length]. lia.
+  - intros [SL [NE [NH [[l1 [EL EN]] [Ap1 [B21 [NC1 [CH [Bn [Apn [PNE [NB [SLL [NS SEMI]]]]]]]]]]]]]].
+    cbn [app List.length]. rewrite <- app_assoc. cbn [app].
+    etransitivity; [exact (item_of_continued_statement_g ign line lab l1 nm tl1 p1 b21 q1 oc1 es bn pn tln ocn rest lc []
+               SL NE NH EL EN Ap1 B21 NC1 CH Bn Apn PNE NB SLL NS)|].
     f_equal. f_equal. rewrite app_length, map_length. cbn [List.length]. lia.
   - cbv zeta. intros [SL [NE [NH [[l1 [EL EN]] [P [SI [SB [BNE _]]]]]]]]. cbn [app List.length]. rewrite Nat.add_1_r.
     rewrite <- SB at 1. apply (gsi_one line lab nm _ l1 rest lc SL NE NH EL EN P). now rewrite SB.
@@ -403,6 +423,15 @@ Qed.
 Lemma ecoms_pend es lc : Forall pend_ok (ecoms es lc).
 Proof. revert lc. induction es as [|e r IH]; intros lc; [constructor|]. destruct e; cbn [ecoms]; try apply IH. constructor; [exact I|apply IH]. Qed.
 
+Lemma cmtl_pend oc n : Forall pend_ok (cmtl oc n).
+Proof. destruct oc; cbn [cmtl]; [constructor; [exact I|constructor]|constructor]. Qed.
+Lemma gcoms_pend es lc : Forall pend_ok (gcoms es lc).
+Proof.
+  revert lc. induction es as [|e r IH]; intros lc; [constructor|]. destruct e; cbn [gcoms]; try apply IH.
+  - apply Forall_app; split; [apply cmtl_pend|apply IH].
+  - constructor; [exact I|apply IH].
+Qed.
+
 Lemma others_pend a b os : Forall (fun o => mem_char ";"%char (fst (fst o)) = false) os ->
   Forall pend_ok (map (mk_other a b) os).
 Proof. induction 1 as [|o r H F IH]; cbn [map]; constructor; [exact H|exact IH]. Qed.
@@ -412,7 +441,7 @@ Lemma split_lay l lc : good l ->
   /\ pend_ok (fst (produced l lc)) /\ Forall pend_ok (snd (produced l lc))
   /\ kept (fst (produced l lc)) = kept (fst (rawp l lc)).
 Proof.
-  destruct l as [line lab nm p|line lab nm p cm|line lab nm p1 ms bn pn|line lab nm p1 q1 ms bn pn|line lab nm p1 es bn pn|line lab nm p1 rs os|b c|];
+  destruct l as [line lab nm p|line lab nm p cm|line lab nm p1 ms bn pn|line lab nm p1 q1 ms bn pn|line lab nm p1 es bn pn|line lab nm tl1 p1 b21 q1 oc1 es bn pn tln ocn|line lab nm p1 rs os|b c|];
     cbn [good rawp produced fst snd].
   - intros [_ [_ [_ [_ [_ [_ SEMI]]]]]]. repeat split; [apply split_ok_plain; exact SEMI|exact SEMI|constructor].
   - intros [_ [_ [_ [_ [_ [_ [_ SEMI]]]]]]]. repeat split; [apply split_ok_plain; exact SEMI|exact SEMI|].
@@ -423,6 +452,9 @@ Proof.
     repeat split; [apply split_ok_plain; exact SEMI|exact SEMI|constructor].
   - intros [_ [_ [_ [_ [_ [_ [_ [_ [_ [_ [_ [_ SEMI]]]]]]]]]]]].
     repeat split; [apply split_ok_plain; exact SEMI|exact SEMI|apply ecoms_pend].
+  - intros [_ [_ [_ [_ [_ [_ [_ [_ [_ [_ [_ [_ [_ [_ SEMI]]]]]]]]]]]]]].
+    repeat split; [apply split_ok_plain; exact SEMI|exact SEMI|].
+    apply Forall_app; split; [apply cmtl_pend|apply Forall_app; split; [apply gcoms_pend|apply cmtl_pend]].
   - cbv zeta. intros [_ [_ [_ [_ [_ [SI [_ [_ [RNE [NOS [SP1 [SEM1 [OP [OSF _]]]]]]]]]]]]]].
     repeat split; [|exact SEM1|apply others_pend; exact OSF].
     cbn [split_ok]. intros src n. unfold split_item.
@@ -438,6 +470,14 @@ Lemma ecoms_length es : forall k, List.length (ecoms es k) <= List.length es.
 Proof.
   induction es as [|e r IH]; intros k; [cbn; lia|].
   destruct e; cbn [ecoms List.length]; specialize (IH (S k)); lia.
+Qed.
+Lemma cmtl_length oc n : List.length (cmtl oc n) <= 1.
+Proof. destruct oc; cbn; lia. Qed.
+Lemma gcoms_length es : forall k, List.length (gcoms es k) <= List.length es.
+Proof.
+  induction es as [|e r IH]; intros k; [cbn; lia|].
+  destruct e as [b p b2 tl oc qo|cl|]; cbn [gcoms List.length]; specialize (IH (S k)); [|lia|lia].
+  rewrite app_length. pose proof (cmtl_length oc k). lia.
 Qed.
 Lemma raw_queue_of_comment l lc : is_comment_item (fst (rawp l lc)) = true -> snd (rawp l lc) = [].
 Proof. destruct l; cbn [rawp fst snd is_comment_item]; intros H; try discriminate; reflexivity. Qed.
@@ -614,10 +654,13 @@ Proof. induction l as [|x r IH]; [reflexivity|]. cbn [keep filter]. fold (keep r
 Lemma item_length l lc : good l -> List.length (item l lc) <= List.length (List.concat (phys l)) + List.length (phys l).
 Proof.
   intros G. unfold item. pose proof (keep_length (fst (produced l lc) :: snd (produced l lc))) as K. cbn [List.length] in K.
-  destruct l as [line lab nm p|line lab nm p cm|line lab nm p1 ms bn pn|line lab nm p1 q1 ms bn pn|line lab nm p1 es bn pn|line lab nm p1 rs os|b c|];
+  destruct l as [line lab nm p|line lab nm p cm|line lab nm p1 ms bn pn|line lab nm p1 q1 ms bn pn|line lab nm p1 es bn pn|line lab nm tl1 p1 b21 q1 oc1 es bn pn tln ocn|line lab nm p1 rs os|b c|];
     cbn [produced rawp snd phys List.length] in *; try lia.
   - destruct G as [_ [NE _]]. cbn [List.concat]. rewrite app_nil_r. destruct line; [contradiction|cbn [List.length] in *; lia].
   - rewrite app_length, map_length in *. cbn [List.length] in *. pose proof (ecoms_length es (S (S lc))). lia.
+  - rewrite !app_length, map_length in *. cbn [List.length] in *. pose proof (gcoms_length es (S (S lc))).
+    pose proof (cmtl_length oc1 (S lc)). pose proof (cmtl_length ocn (S (S lc) + List.length es)).
+    destruct G as [_ [NE _]]. cbn [List.concat]. rewrite app_length. destruct line; [contradiction|cbn [List.length] in *; lia].
   - cbv zeta in G. destruct G as [_ [_ [_ [_ [_ [_ [_ [_ [_ [_ [_ [_ [_ [_ LO]]]]]]]]]]]]]].
     rewrite map_length in K. cbn [List.concat]. rewrite app_nil_r. lia.
 Qed.
@@ -685,6 +728,17 @@ Lemma stmt_texts_comments l : Forall (fun it => is_comment it = true) l -> stmt_
 Proof. induction 1 as [|x r H F IH]; [reflexivity|]. destruct x; try discriminate. exact IH. Qed.
 Lemma ecoms_comments es lc : Forall (fun it => is_comment it = true) (ecoms es lc).
 Proof. revert lc. induction es as [|e r IH]; intros lc; [constructor|]. destruct e; cbn [ecoms]; try apply IH. constructor; [reflexivity|apply IH]. Qed.
+Lemma cmtl_comments oc n : Forall (fun it => is_comment it = true) (cmtl oc n).
+Proof. destruct oc; cbn [cmtl]; [constructor; [reflexivity|constructor]|constructor]. Qed.
+Lemma gcoms_comments es lc : Forall (fun it => is_comment it = true) (gcoms es lc).
+Proof.
+  revert lc. induction es as [|e r IH]; intros lc; [constructor|]. destruct e; cbn [gcoms]; try apply IH.
+  - apply Forall_app; split; [apply cmtl_comments|apply IH].
+  - constructor; [reflexivity|apply IH].
+Qed.
+Lemma gq_comments oc1 a es b ocn c :
+  Forall (fun it => is_comment it = true) (cmtl oc1 a ++ gcoms es b ++ cmtl ocn c).
+Proof. apply Forall_app; split; [apply cmtl_comments|apply Forall_app; split; [apply gcoms_comments|apply cmtl_comments]]. Qed.
 Lemma stmt_texts_others a b a' b' os : stmt_texts (map (mk_other a b) os) = stmt_texts (map (mk_other a' b') os).
 Proof. unfold stmt_texts. induction os as [|o r IH]; [reflexivity|]. cbn [map flat_map mk_other app]. f_equal. exact IH. Qed.
 
@@ -718,7 +772,7 @@ Lemma stmt_texts_items ign1 ign2 : forall ls lc lc',
 Proof.
   induction ls as [|l r IH]; intros lc lc'; [reflexivity|].
   cbn [items filter]. rewrite stmt_texts_app. unfold item. rewrite stmt_texts_keep.
-  destruct l as [line lab nm p|line lab nm p cm|line lab nm p1 ms bn pn|line lab nm p1 q1 ms bn pn|line lab nm p1 es bn pn|line lab nm p1 rs os|b c|]; cbn [is_stmt map].
+  destruct l as [line lab nm p|line lab nm p cm|line lab nm p1 ms bn pn|line lab nm p1 q1 ms bn pn|line lab nm p1 es bn pn|line lab nm tl1 p1 b21 q1 oc1 es bn pn tln ocn|line lab nm p1 rs os|b c|]; cbn [is_stmt map].
   - cbn [items]. rewrite stmt_texts_app. unfold item. rewrite stmt_texts_keep. cbn [produced rawp fst snd strip_comments].
     cbn [stmt_texts flat_map app]. f_equal. apply IH.
   - cbn [items]. rewrite stmt_texts_app. unfold item. rewrite stmt_texts_keep. cbn [produced rawp fst snd strip_comments].
@@ -731,6 +785,10 @@ Proof.
     change (stmt_texts (?a :: ?q)) with (stmt_texts [a] ++ stmt_texts q).
     rewrite !(stmt_texts_comments _ (ecoms_comments _ _)), !app_nil_r. cbn [stmt_texts flat_map app].
     rewrite etext_filter. f_equal. apply IH.
+  - cbn [items]. rewrite stmt_texts_app. unfold item. rewrite stmt_texts_keep. cbn [produced rawp fst snd strip_comments].
+    change (stmt_texts (?a :: ?q)) with (stmt_texts [a] ++ stmt_texts q).
+    rewrite !(stmt_texts_comments _ (gq_comments _ _ _ _ _ _)), !app_nil_r. cbn [stmt_texts flat_map app].
+    f_equal. apply IH.
   - cbn [items]. rewrite stmt_texts_app. unfold item. rewrite stmt_texts_keep. cbn [produced fst snd strip_comments].
     change (stmt_texts (?a :: ?q)) with (stmt_texts [a] ++ stmt_texts q).
     rewrite (stmt_texts_others (S lc) (S lc) (S lc') (S lc') os). cbn [stmt_texts flat_map app]. f_equal. f_equal. apply IH.
